@@ -322,7 +322,10 @@ def run(ctx):
         nret += 1
         for opt in ('args.f', 'args.b'):
             suf = re.compile(r'\.parse_args\(.*\)\.%s$' % opt.split('.')[1])
-            given = [v for a, v in p.decisions if suf.search(a.text)] + [not v for a, v in p.decisions if a.text.endswith(' is None') and suf.search(a.text[:-8])]
+            # "given" in any spelling: truthiness, `is None`, comparison with '' (an option given as the empty text counts as not given)
+            given = [v for a, v in p.decisions if suf.search(a.text) and not a.text.startswith("'' == ")] + [not v for a, v in p.decisions if a.text.endswith(' is None') and suf.search(a.text[:-8])] \
+                + [not v for a, v in p.decisions if a.text.startswith("'' == ") and suf.search(a.text)]
+            given = [all(given)] if given else []
             parsed = any(e.calls('matcher.parse') and suf.search(e.argtext(0) or '') for e in p.events)
             if parsed:
                 nparsed.add(opt)
